@@ -185,9 +185,11 @@ func (m *CPU) Run(app risc.Application) (int, error) {
 						}
 					}
 				}
-				m.writeBus.Connect(cycle + 1)
 				for _, wu := range m.writeUnits {
 					for !wu.isEmpty() || !m.writeBus.IsEmpty() {
+						// The queue of the bus may be smaller than what the execute units
+						// have buffered
+						m.writeBus.Connect(cycle + 1)
 						_ = wu.Cycle(wuReq{sequenceID})
 					}
 				}
